@@ -203,6 +203,9 @@ pub struct Sim<const M: usize> {
     /// the allocator lost events (ring overflow): the ledger can no longer be trusted, the history
     /// is abandoned and reported as inconclusive
     pub poisoned: bool,
+    /// zero-sized blocks obtained through layout-carrying calls (ptr, align, id): the Allocator ops
+    /// also start from these (grow from nothing, deallocate of nothing)
+    pub zsts: Vec<(*mut u8, usize, u32)>,
 }
 
 pub fn round_up(n: usize, a: usize) -> usize {
@@ -264,6 +267,7 @@ impl<const M: usize> Sim<M> {
             force_fallible: None,
             slice_inner: 0,
             poisoned: false,
+            zsts: Vec::new(),
         };
         if let Some(c) = cap {
             if !s.reconstruct(rep, Some(c), fallible_ctor) {
@@ -337,6 +341,7 @@ impl<const M: usize> Sim<M> {
         self.limit = None;
         self.chunks.clear();
         self.live.clear();
+        self.zsts.clear();
     }
 
     fn check_no_residue_after_failed_ctor(&mut self, rep: &mut Report, ev: &[Event]) {
@@ -715,6 +720,11 @@ impl<const M: usize> Sim<M> {
         if size == 0 {
             self.zst_count += 1;
             rep.bump("c01.zst_checked");
+            if let Some((0, al)) = layout {
+                if self.zsts.len() < 8 {
+                    self.zsts.push((ptr, al, id));
+                }
+            }
             return Some(id);
         }
         // in held memory, outside bookkeeping
@@ -770,6 +780,7 @@ impl<const M: usize> Sim<M> {
         }
         self.cur = "drop".into();
         self.live.clear();
+        self.zsts.clear();
         self.begin();
         unsafe { ManuallyDrop::drop(&mut self.bump) };
         let ev = self.end(rep, OpKind::Drop);
@@ -786,6 +797,7 @@ impl<const M: usize> Sim<M> {
         }
         self.cur = "drop-on-thread".into();
         self.live.clear();
+        self.zsts.clear();
         let b = unsafe { ManuallyDrop::take(&mut self.bump) };
         self.alive = false;
         let ev = std::thread::spawn(move || {
